@@ -61,6 +61,10 @@ def gen_keys(rng, n, cls, hi, p_null, shape):
 def gen_cases(tier, rng):
     for c in common.load_corpus(PID):
         yield c
+    # two keys whose label counts multiply beyond 2**32 (typed-dict tracker; keys that differ by exactly 2**32 are planted)
+    for j in range(2 if tier == "quick" else 6):
+        yield dict(route="bigcard", gseed=rng.randrange(1 << 30), n1=rng.choice([66000, 70000]), planted=40, keys=[], key_classes=["int", "int"],
+                   container="ndarray", sort=False)
     n_cases = 4000 if tier == "quick" else 60000
     for _ in range(n_cases):
         route = rng.choice(ROUTES)
@@ -240,7 +244,28 @@ def observe(case):
         core_mod.THRESHOLD_FOR_CHUNKED_FACTORIZE = old
 
 
+def evaluate_bigcard(case):
+    import numpy as np
+    from groupby_lib.groupby.factorization import factorize_2d
+    from ..gbcases import bigcard_keys, check_bigcard
+    k1, k2 = bigcard_keys(case["gseed"], case["n1"], case["planted"])
+    res = dict(tags=["route:bigcard", "nkeys:2", "kc:int"], size=len(k1), key=repr(("bigcard", case["gseed"], case["n1"])), nontrivial=True,
+               bucket=("bigcard", "ndarray", ("int", "int")))
+    try:
+        codes, labels = factorize_2d(k1, k2)
+        err = check_bigcard(codes, labels.get_level_values(0).to_numpy(), labels.get_level_values(1).to_numpy(), k1, k2, None)
+    except Exception as e:  # noqa
+        err = f"error:{type(e).__name__}: {str(e)[:200]}"
+    if err:
+        res.update(verdict="violation", detail=dict(case=case, expected="the partition relations on a key space beyond 2**32", actual=err))
+    else:
+        res.update(verdict="ok", detail=None)
+    return res
+
+
 def evaluate(case, drv):
+    if case["route"] == "bigcard":
+        return evaluate_bigcard(case)
     rows = row_keys(case)
     classes = case["key_classes"]
     n = len(rows)
@@ -347,6 +372,8 @@ def evaluate(case, drv):
 
 
 def shrink_candidates(case):
+    if case["route"] == "bigcard":
+        return
     n = len(case["keys"][0]) if case["keys"] else 0
     if case["container"] not in ("ndarray",) and case["route"] != "gb_arrowchunks":
         yield {**case, "container": "ndarray", "chunks": None}
